@@ -565,6 +565,26 @@ def case_view_history(ctx, r, B):
         lines.append(line)
         expects.append(('ok ' if raised is None else f'err {raised} ') + state_line(m))
         metas.append((site, ic))
+    # round 8: at the end of the history every object (base, held view, fresh views) must report ONE polynomial through every read
+    # accessor, and it must be the reference in the vartype the object reports
+    from harness.props import accessors as ACC
+    for o in ('m', 'hv', 'm.spin', 'm.binary'):
+        obj = R.ev(o)
+        bad, rd = ACC.disagreements(obj)
+        ctx.tick('read accessors compared at the end of a history')
+        exp = ref.in_view(obj.vartype.name)
+        if not bad:
+            got = GP(); got.add((), rd[0])
+            for v_, b_ in rd[1].items():
+                got.add((v_,), b_)
+            for k_, b_ in rd[2].items():
+                got.add(tuple(k_), b_)
+            if got.nz() != exp.nz():
+                bad = [('all accessors', f'report {got.nz()} but the model, in {obj.vartype.name}, is {exp.nz()}')]
+        if bad:
+            ctx.fail('property', f'{site_of[o]} read accessors', f'at the end of a history with views and in-place vartype changes; accessor={bad[0][0].split("(")[0].strip()}',
+                     f'{o}: {bad[0][0]}: {bad[0][1]}', repro=repro(ACC.repro_src(o)))
+            return
     if dtype == 'object':
         # the dict model is in the same *insertion order* as `_adj` (what `pyBQM.change_vartype` and `relabel_variables` iterate over)
         lines.append(f'lb {ref.vt} order'); expects.append('ok ' + raw_order(m)); metas.append(('pyBQM._adj insertion order', 'after a history'))
